@@ -117,8 +117,6 @@ def run(tier, seed, replay=None):
     rep.extra["schedules_followed_exactly"] = info2["followed"]
     rep.extra["schedules_unrealised"] = info2["unrealised"]
     rep.sample({"replayed_schedule": scheds[len(scheds) // 2]})
-    if info2["followed"] < 0.9 * len(scheds):
-        raise ToolError(f"only {info2['followed']} of {len(scheds)} model schedules could be followed by the real code: spec and hooks disagree")
     for idx in bad2:
         e = events2[idx - 1]
         r0 = max([x for x in resets2 if x <= idx] or [1])
@@ -142,4 +140,7 @@ def run(tier, seed, replay=None):
         if e.get("out") in ("hang", "panic"):
             what += f" (call ended in {e['out']}: {e.get('msg', '')})"
         rep.violation(what, {"run": run_ev, "event": e}, {"event_index": idx, "events_of_run": events[r0 - 1:idx]})
-    return rep.finish()
+    rc = rep.finish()
+    if rc == 0 and info2["followed"] < 0.9 * len(scheds):
+        raise ToolError(f"only {info2['followed']} of {len(scheds)} model schedules could be followed by the real code: spec and hooks disagree")
+    return rc
